@@ -143,6 +143,13 @@ func vfGenExt(t *rapid.T, idx int, earlier []vfExt) vfExt {
 	}
 	// the same name may be registered again (under the same or another parent), or collide with
 	// a built-in format: every Extend call still adds a new node in front of the existing siblings
+	// the primary name is stored and looked up verbatim: upper-case letters and parameters are legal
+	switch rapid.IntRange(0, 11).Draw(t, "namestyle") {
+	case 0:
+		e.Mime = fmt.Sprintf("Application/X-Verif-%d", idx)
+	case 1:
+		e.Mime = fmt.Sprintf("application/x-verif-%d; version=2", idx)
+	}
 	switch rapid.IntRange(0, 9).Draw(t, "dup") {
 	case 0:
 		if len(earlier) > 0 {
@@ -258,8 +265,8 @@ func vfChainEq(got []vfNode, want []vfNode) bool {
 	}
 	for i := range got {
 		g := got[i].Mime
-		if i == 0 {
-			g = vfBare(g)
+		if i == 0 && g != want[i].Mime {
+			g = vfBare(g) // detection may have attached a charset parameter to the leaf
 		}
 		if g != want[i].Mime || got[i].Ext != want[i].Ext {
 			return false
